@@ -94,6 +94,9 @@ class C18(Prop):
             items.append('%04d' % y)
             items.append('%d' % y)
             out.append({'kind': 'str2date', 'items': items})
+        out.append({'kind': 'nullopt', 'items': [['string', 'timestamp', {'timestampFormat': 'yyyy-MM-dd'}],
+                                                ['string', 'timestamp', {'timestampFormat': "yyyy-MM-dd'T'HH:mm:ss"}],
+                                                ['string', 'date', {'dateFormat': 'yyyy/MM/dd'}]]})
         out.append({'kind': 'str2date', 'items': [
             '', ' ', '2019', ' 2019', '2019 ', ' 2019-1-1 ', '2019-1-1-1', '12345-1-1', '19-1-1', 'abcd', 'abcd-1-1',
             '2019-', '2019--1', '2019-1-', '2019-01-01T', 'T2019-01-01', '2019-01-01 T', '2019-01-01Tx y', '2019-1-1\t',
@@ -269,6 +272,14 @@ class C18(Prop):
                         datetime.date(*r)
                     except ValueError:
                         return Mismatch('model accepted a date datetime.date rejects', impl, r, 'validDate')
+            elif kind == 'nullopt':
+                # casting null yields null also when the caller passes parsing options
+                f, t, opts = it
+                impl = call(gc(ty[f], ty[t], dict(opts)), None)
+                ctx.note('null:with-options')
+                if impl is not None:
+                    return Mismatch('cast null from %s to %s with options %s does not yield null' % (f, t, opts), impl, None,
+                                    'null-options:%s->%s' % (f, t), relation='spec')
             elif kind == 'null':
                 f, t = it
                 impl = call(gc(ty[f], ty[t], {}), None)
